@@ -1,6 +1,7 @@
 package main
 
 import (
+	"go/constant"
 	"fmt"
 	"go/token"
 	"go/types"
@@ -659,6 +660,10 @@ func c03Capacity(p *Prog, r *Report, rule string, tl *types.Named) {
 // ---------------- C13 ----------------
 
 func runC13(p *Prog, r *Report) {
+	// R8: the rejection a client is shown is its own: what the limiter hands to the error handler after releasing its lock is not shared limiter state (shared with C09.R1 for the limiter)
+	if tlT := p.Named("ratelimit", "TokenLimiter"); tlT != nil {
+		r.Floor("C13.R8", c09Races(p, r, "C13.R8", []*types.Named{tlT}), 1, "written shared locations of the limiter")
+	}
 	// R7: the refill credits exactly the elapsed time, so an idle source regains its burst and the advertised wait suffices (shared with C03.R4)
 	r.Borrow(p, runC03, map[string]string{"C03.R4": "C13.R7"}, nil)
 	b := resolveBucket(p, r, "C13.R1")
@@ -824,6 +829,63 @@ func runC13(p *Prog, r *Report) {
 			if !guardedByErr {
 				okFold, whyFold = false, "the delay of a bucket that returned an error is folded into the maximum at "+p.InstrPos(c)
 			}
+		}
+		// the advertised delay is the maximum of the buckets' delays and nothing else: the returned value depends on
+		// the buckets' consume results only (a cap by the longest period, a rounding, ... makes the wait insufficient)
+		{
+			badLeaf := ""
+			seen := map[ssa.Value]bool{}
+			var walk func(v ssa.Value, d int)
+			walk = func(v ssa.Value, d int) {
+				if v == nil || d > 12 || seen[v] {
+					return
+				}
+				seen[v] = true
+				switch x := stripConv(v).(type) {
+				case *ssa.Const:
+				case *ssa.Phi:
+					for _, e := range x.Edges {
+						walk(e, d+1)
+					}
+				case *ssa.Extract:
+					if c, ok := x.Tuple.(*ssa.Call); !ok || c.Common().StaticCallee() != b.consume || x.Index != 0 {
+						badLeaf = x.String()
+					}
+				case *ssa.Call:
+					cc := x.Common()
+					if bi, ok := cc.Value.(*ssa.Builtin); ok && (bi.Name() == "max") {
+						for _, a := range cc.Args {
+							walk(a, d+1)
+						}
+						return
+					}
+					if g := cc.StaticCallee(); g != nil && p.InModule(g) && g.Signature.Params().Len() == 2 && len(cc.Args) == 2 {
+						if _, ok := (&lbCtx{p: p, hyp: map[string]int64{}}).callLB(g, []ssa.Value{ssa.NewConst(constantInt(1), cc.Args[0].Type()), ssa.NewConst(constantInt(2), cc.Args[1].Type())}); ok {
+							// a max-like helper: lower bound of max(1,2) computes
+							for _, a := range cc.Args {
+								walk(a, d+1)
+							}
+							return
+						}
+					}
+					badLeaf = truncate(x.String(), 60)
+				case *ssa.UnOp:
+					if n, f, _, ok := fieldOf(x.X); ok && n != nil {
+						badLeaf = "field " + f
+					} else {
+						walk(x.X, d+1)
+					}
+				case *ssa.BinOp:
+					badLeaf = "arithmetic " + x.Op.String()
+				default:
+					badLeaf = truncate(v.String(), 60)
+				}
+			}
+			for _, ret := range Returns(b.setCons) {
+				walk(ReturnOperand(ret, 0), 0)
+			}
+			r.Check(badLeaf == "", "C13.R2", sn+": the returned delay is the maximum of the buckets' delays and nothing else", p.FuncPos(b.setCons), "the returned value derives from the consume results only (through the maximum fold)",
+				"the returned delay also depends on "+badLeaf+": capping or otherwise altering the maximum of the buckets' delays advertises a wait after which the request is refused again")
 		}
 		r.Check(okFold, "C13.R2", sn+": only error-free buckets contribute a delay", p.InstrPos(consCall), "the maximum-delay update is reachable only on the err == nil edge of this bucket", whyFold+": an over-burst request would be answered with a delay instead of an error")
 	}
@@ -1031,3 +1093,6 @@ func mutantsC13() []Mutant {
 func bucketsField(set *types.Named) string {
 	return fieldByRole(set, "buckets", func(t types.Type) bool { _, ok := t.Underlying().(*types.Map); return ok }, nil)
 }
+
+
+func constantInt(k int64) constant.Value { return constant.MakeInt64(k) }
